@@ -4,6 +4,7 @@ import (
 	"fmt"
 	"math"
 	"math/big"
+	"sort"
 
 	"verifsim/kit"
 	"verifsim/worlds/chainkit"
@@ -21,10 +22,11 @@ import (
 // intent is what the simulator asked for with one transaction (its own ledger entry: the
 // payload it signed). Whether it was applied is read from the receipt status.
 type intent struct {
-	kind  string
-	from  int
-	val   common.Address // target validator (zero if none)
-	value *big.Int       // tokens detained from the sender on success (create/deposit/dlg-add); nil otherwise
+	kind   string
+	from   int
+	val    common.Address // target validator (zero if none)
+	value  *big.Int       // tokens detained from the sender on success (create/deposit/dlg-add); nil otherwise
+	refund bool           // a contract call that earns an EVM gas refund when it succeeds (storage clear, self-destruct)
 }
 
 func (it *intent) detains() bool { return it != nil && it.value != nil && it.value.Sign() > 0 }
@@ -36,19 +38,20 @@ type contract struct {
 }
 
 type genState struct {
-	prices    []*big.Int // gas price per client: pairwise distinct, so that the worker's price heap never sees a tie (ties are broken by map order, types/transaction.go:333)
-	contracts []*contract
-	created   int
-	slashes   int
-	starve    int // index into act.vals of a validator that is never put first in the proposer order (-1 none)
-	curVotes  []*chainkit.SignedVote
-	curCtx    *chainkit.Ctx
-	prevVotes []*chainkit.SignedVote
-	prevCtx   *chainkit.Ctx
-	prevHash  common.Hash
-	headSt    *state.StateDB
-	headNum   uint64
-	altCB     int
+	prices       []*big.Int // gas price per client: pairwise distinct, so that the worker's price heap never sees a tie (ties are broken by map order, types/transaction.go:333)
+	contracts    []*contract
+	created      int
+	slashes      int
+	starve       int // index into act.vals of a validator that is never put first in the proposer order (-1 none)
+	curVotes     []*chainkit.SignedVote
+	curCtx       *chainkit.Ctx
+	prevVotes    []*chainkit.SignedVote
+	prevCtx      *chainkit.Ctx
+	prevHash     common.Hash
+	headSt       *state.StateDB
+	headNum      uint64
+	altCB        int
+	riskyPending int // risky actions submitted in the running period (see sim.risky)
 }
 
 func newGenState(c *kit.Chooser, a *actors) *genState {
@@ -212,6 +215,7 @@ func oddLU(c *kit.Chooser) *big.Int { return big.NewInt(int64(1 + c.Intn("odd-lu
 func (s *sim) genTransfer() {
 	from := s.c.Intn("from", nClients)
 	var to common.Address
+	refund := false
 	switch s.c.Weighted("to-kind", []int{6, 2, 1}) {
 	case 0:
 		to = s.act.clients[s.c.Intn("to", nClients)].addr
@@ -219,13 +223,16 @@ func (s *sim) genTransfer() {
 		to = common.BytesToAddress([]byte{0xab, byte(s.c.Intn("fresh", 6))})
 	case 2:
 		if len(s.g.contracts) > 0 {
-			to = s.g.contracts[s.c.Intn("to-contract", len(s.g.contracts))].addr
+			ct := s.g.contracts[s.c.Intn("to-contract", len(s.g.contracts))]
+			to = ct.addr
+			// empty calldata: the store contract clears slot 0, the self-destructor dies towards address zero
+			refund = ct.kind == 0 || ct.kind == 3
 		} else {
 			to = s.act.clients[0].addr
 		}
 	}
 	amt := new(big.Int).Add(yous(uint64(s.c.Intn("amount-you", 50))), oddLU(s.c))
-	s.submit(from, &to, amt, 21000+uint64(s.c.Intn("extra-gas", 2))*30000, nil, &intent{kind: "transfer"}, fmt.Sprintf("transfer %v -> %s", amt, s.act.name(to)))
+	s.submit(from, &to, amt, 21000+uint64(s.c.Intn("extra-gas", 2))*30000, nil, &intent{kind: "transfer", refund: refund}, fmt.Sprintf("transfer %v -> %s", amt, s.act.name(to)))
 }
 
 func (s *sim) genContractCreate() {
@@ -265,9 +272,11 @@ func (s *sim) genContractCall() {
 	var data []byte
 	value := new(big.Int)
 	desc := ""
+	refund := false
 	switch ct.kind {
 	case 0:
 		v, k := byte(s.c.Intn("store-value", 3)*3), byte(s.c.Intn("store-key", 3))
+		refund = v == 0
 		data = append(word([]byte{v}), word([]byte{k})...)
 		desc = fmt.Sprintf("sstore(%d)=%d", k, v)
 	case 1:
@@ -278,7 +287,9 @@ func (s *sim) genContractCall() {
 	case 2:
 		var to common.Address
 		if s.c.Chance("forward-to-contract", 1, 3) {
-			to = s.g.contracts[s.c.Intn("forward-target", len(s.g.contracts))].addr
+			tc := s.g.contracts[s.c.Intn("forward-target", len(s.g.contracts))]
+			to = tc.addr
+			refund = tc.kind == 0 || tc.kind == 3 // inner call with empty calldata: storage clear / self-destruct
 		} else {
 			to = s.act.clients[s.c.Intn("forward-client", nClients)].addr
 		}
@@ -293,12 +304,13 @@ func (s *sim) genContractCall() {
 			value = yous(2)
 		}
 		desc = fmt.Sprintf("selfdestruct -> %s value=%v", s.act.name(to), value)
+		refund = true
 	}
 	gas := uint64(150000)
 	if s.c.Chance("low-gas", 1, 10) {
 		gas = 23000
 	}
-	s.submit(from, &ct.addr, value, gas, data, &intent{kind: "contract-call"}, fmt.Sprintf("call %s %s", ct.name, desc))
+	s.submit(from, &ct.addr, value, gas, data, &intent{kind: "contract-call", refund: refund}, fmt.Sprintf("call %s %s", ct.name, desc))
 }
 
 func (s *sim) genValCreate() {
@@ -341,8 +353,8 @@ func (s *sim) genValCreate() {
 	msg := &staking.TxCreateValidator{
 		Name: cand.name, OperatorAddress: op, Coinbase: cand.coinbase,
 		MainPubKey: cand.key.MainPub, BlsPubKey: cand.key.BlsPub, Value: value, Nonce: s.nextNonce(from),
-		CommissionRate: []uint16{0, 1000, 3333, 5000, 10000}[s.c.Intn("commission", 5)],
-		RiskObligation: []uint16{0, 2500, 777, 10000}[s.c.Intn("risk", 4)],
+		CommissionRate:   []uint16{0, 1000, 3333, 5000, 10000}[s.c.Intn("commission", 5)],
+		RiskObligation:   []uint16{0, 2500, 777, 10000}[s.c.Intn("risk", 4)],
 		AcceptDelegation: []uint16{1, 1, 0}[s.c.Intn("accept", 3)], Role: cand.role,
 	}
 	sig := s.masterSign(cand.role, msg, from, func(b []byte) { msg.Sign = b }, func() { msg.Nonce++ })
@@ -452,7 +464,11 @@ func (s *sim) genValWithdraw() {
 	yp := curParams()
 	self := new(big.Int).Set(rec.SelfToken)
 	var value *big.Int
-	switch s.c.Weighted("withdraw-amount", []int{4, 2, 2, 1, 2, 1}) {
+	ww := []int{4, 2, 2, 1, 2, 1}
+	if !s.risky(rec) {
+		ww[1], ww[2], ww[4] = 0, 0, 0 // would force the validator offline
+	}
+	switch s.c.Weighted("withdraw-amount", ww) {
 	case 0:
 		value = yous(uint64(1 + s.c.Intn("withdraw-you", 2000)))
 	case 1:
@@ -499,7 +515,7 @@ func (s *sim) genValStatus() {
 	want := params.ValidatorOnline
 	if rec.IsOnline() {
 		want = params.ValidatorOffline
-		if rec.Kind() == params.KindChamber && s.onlineChamber() <= 3 {
+		if !s.risky(rec) {
 			return
 		}
 	}
@@ -808,7 +824,7 @@ func (s *sim) postEvidence() {
 	variant := s.c.Weighted("evidence-variant", []int{6, 1, 1, 1, 1, 1})
 	if variant == 0 || variant == 4 {
 		// a real slash takes a validator out: keep the chain alive
-		if s.onlineChamber() <= 3 || s.g.slashes >= 2 {
+		if s.g.slashes >= 2 || !s.risky(nil) {
 			return
 		}
 	}
@@ -868,16 +884,57 @@ func (s *sim) steerForge() {
 	e.StartIndex = uint32([]int{1, 1, 2, 3}[s.c.Weighted("start-index", []int{6, 0, 1, 1})])
 	perm := s.c.Perm("proposer-order", len(e.Keys))
 	st := s.head()
-	ghostOK := s.c.Chance("ghost-proposer", 1, 12)
-	var first, last []int
+	next := s.b.Chain.CurrentBlock().NumberU64() + 1
+	// a validator that is only in the look-back set any more may still propose: one that is
+	// offline/expelled now (1/6), or one whose record was deleted (1/40: the builder then dies in
+	// logging.Crit "proposer not in the current validators set", endblock.go:183)
+	ghostOK, deletedOK := s.c.Chance("ghost-proposer", 1, 6), s.c.Chance("deleted-proposer", 1, 40)
+	wait := curParams().InactivityPenaltyWaitRounds
+	var urgent, first, last []int
 	for _, i := range perm {
 		v := st.GetValidatorByMainAddr(e.Keys[i].Addr)
 		current := v != nil && v.IsOnline() && v.Kind() == params.KindChamber
-		if (!current && !ghostOK) || i == s.g.starve {
+		switch {
+		case i == s.g.starve:
 			last = append(last, i)
-		} else {
+		case current && next-v.LastActive()+uint64(len(e.Keys))+1 >= wait:
+			// an online chamber validator is penalised for inactivity when it has not
+			// proposed for InactivityPenaltyWaitRounds (slash_youv5.go:82): an honest,
+			// live network gives everybody a turn; only the starved validator goes without
+			urgent = append(urgent, i)
+		case (v == nil && !deletedOK) || (v != nil && !current && !ghostOK):
+			last = append(last, i)
+		default:
 			first = append(first, i)
 		}
 	}
-	e.ProposerOrder = append(first, last...)
+	sort.SliceStable(urgent, func(a, b int) bool {
+		return st.GetValidatorByMainAddr(e.Keys[urgent[a]].Addr).LastActive() < st.GetValidatorByMainAddr(e.Keys[urgent[b]].Addr).LastActive()
+	})
+	e.ProposerOrder = append(append(urgent, first...), last...)
+}
+
+// onlineAny counts the online validators of the head state (any role).
+func (s *sim) onlineAny() int {
+	n := 0
+	for _, v := range s.head().GetValidatorsForUpdate() {
+		if v.IsOnline() {
+			n++
+		}
+	}
+	return n
+}
+
+// risky reports whether one more action that can take an online chamber validator out of the
+// set (status offline, full or forced-full withdrawal, slash) may be generated in this period
+// without endangering the chain's liveness (at least three online chamber validators stay).
+func (s *sim) risky(rec *state.Validator) bool {
+	if rec != nil && !(rec.IsOnline() && rec.Kind() == params.KindChamber) {
+		return true
+	}
+	if s.onlineChamber()-s.g.riskyPending <= 3 {
+		return false
+	}
+	s.g.riskyPending++
+	return true
 }
